@@ -1104,11 +1104,17 @@ func (pool *TxPool) demoteUnexecutables() {
 			log.Trace("Demoting pending transaction", "hash", hash)
 			pool.enqueueTx(hash, tx)
 		}
-		// If there's a gap in front, warn (should never happen) and postpone all transactions
-		if list.Len() > 0 && list.txs.Get(nonce) == nil {
-			for _, tx := range list.Cap(0) {
+		// If there's a gap in front of or inside the list, postpone everything from the first
+		// missing nonce on. A gap inside appears when a reorg re-injects only some of the
+		// transactions below the old pending ones (the others no longer validate).
+		run := 0
+		for list.txs.Get(nonce+uint64(run)) != nil {
+			run++
+		}
+		if run < list.Len() {
+			for _, tx := range list.Cap(run) {
 				hash := tx.Hash()
-				log.Error("Demoting invalidated transaction", "hash", hash)
+				log.Trace("Demoting invalidated transaction", "hash", hash)
 				pool.enqueueTx(hash, tx)
 			}
 		}
